@@ -380,6 +380,15 @@ fn random_scenario(r: &mut Report, st: &mut Stats, rng: &mut Rng, tr: &[f64], mo
             }
         }
     }
+    if mode == 3 {
+        // generator mode: the history goes to another engine (the Python binding), truth attached
+        println!(
+            "{}",
+            json!({"reference": reference.map(|p| [p.latitude, p.longitude]),
+                   "reports": reps.iter().map(|x| json!({"ts": x.ts, "frame": hexs(&x.frame), "truth": [x.lat, x.lon], "ac": x.ac, "surface": x.surface, "note": x.note})).collect::<Vec<_>>()})
+        );
+        return;
+    }
     judge(r, st, &reps, reference, ["random/batch", "random/step", "random/cli"][mode as usize], &plans);
 }
 
@@ -484,6 +493,17 @@ fn hostile(r: &mut Report, st: &mut Stats, rng: &mut Rng, which: u64) {
             let reps = realise(&plans, t0, rng, false);
             judge(r, st, &reps, None, "hostile:two-aircraft-one-zone-apart-interleaved", &plans);
         }
+    }
+}
+
+/// `rsmon gen06`: random-family histories with ground truth as JSON lines (for engines outside this binary)
+pub fn generate(a: &Args) {
+    let mut r = Report::new("C06");
+    let mut st = Stats { reports: 0, with_pos: 0, surface_pos: 0, max_err: 0.0 };
+    let tr = geo::transitions();
+    let mut rng = Rng::new(a.seed, a.shard, "C06-gen");
+    for _ in 0..a.budget(1_600, 80_000) {
+        random_scenario(&mut r, &mut st, &mut rng, &tr, 3);
     }
 }
 
